@@ -317,6 +317,11 @@ func main() {
 	for i := 0; i < f.N; i++ {
 		genDisp(o, rd)
 	}
+	// the real client shard manager on the real dispatcher, statuses with leaders absent / present / changing
+	rt := r.Fork()
+	for i := 0; i < f.N/3; i++ {
+		genStream(o, rt)
+	}
 	// ConfigChanged of a live coordinator with shard deletions completing inside its compare-and-set window
 	slog.SetDefault(slog.New(hookHandler{}))
 	rx := r.Fork()
